@@ -14,7 +14,7 @@ import (
 	"strings"
 )
 
-func init() { extraSections = append(extraSections, factsRing) }
+func init() { extraSections = append(extraSections, section{"ring", factsRing}) }
 
 // event codes: mark N -> N;  1000+2*op+mx with op 0 lock 1 unlock 2 wait 3 bcast, mx 0 pcond 1 ccond;
 // 1100 return; 1200 defer Close; 1300+k call of ring method k;
